@@ -61,6 +61,9 @@
 #include <QRegularExpression>
 #include <QTcpServer>
 #include <algorithm>
+#include <fcntl.h>
+#include <sys/wait.h>
+#include <unistd.h>
 #include <functional>
 #include <memory>
 #include <set>
@@ -244,7 +247,7 @@ struct IqEnv {
         Req &r = reqs[req];
         r.count++; r.how = how;
         stepDone.push_back({ req, how });
-        stat("completed:" + (how.rfind("reply:result", 0) == 0 ? std::string("reply-result") : how.rfind("reply:error", 0) == 0 ? std::string("reply-error") : how));
+        vh::stat("completed:" + (how.rfind("reply:result", 0) == 0 ? std::string("reply-result") : how.rfind("reply:error", 0) == 0 ? std::string("reply-error") : how));
         if (r.count > 1) { oracleFail("C07:iq:completed-twice", history); return; }
         bool byReply = how.rfind("reply:", 0) == 0;
         if (byReply) {
@@ -327,7 +330,7 @@ struct IqEnv {
                     if (g == generated - 1 && wasSent) wire[canon] = w; else { wire[canon] = Q("?unobserved-" + canon); }
                 }
                 known = wasSent;
-                stat("generated_ids", generated);
+                vh::stat("generated_ids", generated);
             }
             reqs[req].wireId = w; reqs[req].wireKnown = known;
             watch(std::move(task), req);
@@ -377,7 +380,7 @@ struct IqEnv {
         stepDone.clear(); curInj = -1;
         history += op + ";";
         std::istringstream is(op); std::string w; is >> w; curOp = w;
-        stat("op:" + w);
+        vh::stat("op:" + w);
         if (c) {
             if (w == "send" || w == "sendraw") { std::string id, to; is >> id >> to; doSend(id, to, w == "sendraw"); }
             else if (w == "fail") { std::string id; is >> id; c->stream()->iqManager().finish(wireOf(id), QXmppError { QStringLiteral("Disconnected"), QXmpp::SendError::Disconnected }); }
@@ -425,7 +428,7 @@ static void runIqSeq(const std::string &own, bool sock, bool sm, const std::vect
     }
     if (emitSample) sample(smp);
     if (env.c) corr("destroy", env.apply("destroy"));   // exactly once: whatever is left must complete now
-    stat("iq_sequences");
+    vh::stat("iq_sequences");
 }
 
 static void enumIq(const std::vector<std::string> &alpha, int depth, std::vector<std::string> &cur)
@@ -512,7 +515,7 @@ struct MamEnv {
         evs.clear();
         history += op + ";";
         std::istringstream is(op); std::string w; is >> w;
-        stat("mamop:" + w);
+        vh::stat("mamop:" + w);
         if (w == "start") {
             if (!started) {
                 started = true;
@@ -594,7 +597,7 @@ static void runMamSeq(bool e2ee, bool instant, const std::vector<std::string> &o
             oracleFail(e2ee && env.msgsAtAnswer == 0 ? "C07:mam:e2ee-empty-page-never-finishes" : "C07:mam:never-finishes",
                        "e2ee=" + std::to_string(e2ee) + " instant=" + std::to_string(instant) + " " + env.history);
     }
-    stat("mam_sequences");
+    vh::stat("mam_sequences");
 }
 
 static void enumMam(const std::vector<std::string> &alpha, int depth, std::vector<std::string> &cur)
@@ -733,7 +736,7 @@ struct NegEnv {
             if (rq == Bind) {
                 c->inject(QL("<iq xmlns='jabber:client' type='result' id='") + bindId + QL("'><bind xmlns='urn:ietf:params:xml:ns:xmpp-bind'><jid>me@own.org/res</jid></bind></iq>"));
             } else if (rq == Resume) {
-                stat("neg_resume_requests");
+                vh::stat("neg_resume_requests");
                 if (pol == 'R' && refResumable) {   // a correct server resumes only a session it still holds
                     genuine = true; smNow = true; resumableNow = true;
                     c->inject(QL("<resumed xmlns='urn:xmpp:sm:3' previd='sess' h='0'/>"));
@@ -748,7 +751,7 @@ struct NegEnv {
         if (resumableNow) olderResumable = true;           // (re-)established a resumable session
         else if (smNow) olderResumable = false;            // <enabled/> without resume: the client was told
         refResumable = resumableNow;
-        stat(genuine ? "neg_sessions_resumed" : smNow ? "neg_sessions_new_sm" : "neg_sessions_new_nosm");
+        vh::stat(genuine ? "neg_sessions_resumed" : smNow ? "neg_sessions_new_sm" : "neg_sessions_new_nosm");
         if (genuine) mustAllBeRetained(before);
         else mustAllBeCompleted("C07:neg:pending-after-new-session");
         line(std::string("nconn ") + (smNow ? "1 " : "0 ") + (resumableNow ? "1 " : "0 ") + (genuine ? "1" : "0"));
@@ -780,7 +783,7 @@ struct NegEnv {
     void apply(const std::string &sym)
     {
         history += sym + ";";
-        stat("negop:" + sym);
+        vh::stat("negop:" + sym);
         if (sym == "send") send();
         else if (sym == "reply") reply(false);
         else if (sym == "stray") reply(true);
@@ -804,7 +807,7 @@ static void runNegSeq(const std::vector<std::string> &ops)
     for (auto &r : env.reqs) if (r.count != 1) { oracleFail("C07:neg:pending-after-destruction", env.history); break; }
     oraclePass()++;
     env.line("destroy");
-    stat("neg_sequences");
+    vh::stat("neg_sequences");
 }
 
 static void enumNeg(const std::vector<std::string> &alpha, int depth, std::vector<std::string> &cur)
@@ -833,7 +836,7 @@ struct BlkEnv {
     {
         evs.clear();
         history += op + ";";
-        stat("blkop:" + op);
+        vh::stat("blkop:" + op);
         if (op == "fetch") {
             int n = (int)counts.size();
             counts.push_back(0);
@@ -876,7 +879,7 @@ static void runBlkSeq(const std::vector<std::string> &ops)
     corr("newsess", env.apply("newsess"));   // whatever is still waiting must complete now
     for (int x : env.counts) if (x != 1) { oracleFail("C07:blk:call-not-completed-once", env.history); break; }
     oraclePass()++;
-    stat("blk_sequences");
+    vh::stat("blk_sequences");
 }
 
 static void enumBlk(const std::vector<std::string> &alpha, int depth, std::vector<std::string> &cur)
@@ -909,7 +912,7 @@ struct SensEnv {
         evs.clear();
         history += op + ";";
         std::istringstream is(op); std::string w, arg; is >> w >> arg;
-        stat("sensop:" + w);
+        vh::stat("sensop:" + w);
         if (w == "start") {
             if (!started && !extDropped) {
                 started = true;
@@ -962,7 +965,7 @@ static void runSensSeq(const std::vector<std::string> &ops)
     // every stage reports: the pipeline must have ended, exactly once
     for (auto op : { "enc 1", "iq 1", "dec ok" }) corr(op, env.apply(op));
     if (env.started) { if (env.finishes != 1) oracleFail("C07:sens:not-finished-once", env.history); else oraclePass()++; }
-    stat("sens_sequences");
+    vh::stat("sens_sequences");
 }
 
 static void enumSens(const std::vector<std::string> &alpha, int depth, std::vector<std::string> &cur)
@@ -1049,7 +1052,6 @@ static std::vector<MgrCase> mgrCases()
     add("moved:publishStatement", [=](TestClient &c, QObject *x, int *n) { countTask(moved(c)->publishStatement(QStringLiteral("new@own.org")), x, n); });
     add("moved:verifyStatement", [=](TestClient &c, QObject *x, int *n) { countTask(moved(c)->verifyStatement(QStringLiteral("old@rem.org"), QStringLiteral("new@rem.org")), x, n); });
     add("tune:request", [](TestClient &c, QObject *x, int *n) { ext<QXmppPubSubManager>(c); countTask(ext<QXmppUserTuneManager>(c)->request(QStringLiteral("bob@rem.org")), x, n); });
-    add("pubsub:requestOwnPepFeatures", [](TestClient &c, QObject *x, int *n) { countTask(ext<QXmppPubSubManager>(c)->requestOwnPepFeatures(), x, n); });
     add("pubsub:requestNodeAffiliations", [](TestClient &c, QObject *x, int *n) { countTask(ext<QXmppPubSubManager>(c)->requestNodeAffiliations(QStringLiteral("pubsub.own.org"), QStringLiteral("node")), x, n); });
     add("pubsub:createInstantNode-config", [](TestClient &c, QObject *x, int *n) { countTask(ext<QXmppPubSubManager>(c)->createInstantNode(QStringLiteral("pubsub.own.org"), QXmppPubSubNodeConfig()), x, n); });
     // --- account migration: export runs the export functions registered by the roster and vCard managers in parallel
@@ -1089,7 +1091,6 @@ static std::map<std::string, std::vector<std::string>> coverageTable()
         { "pubsub:requestAffiliations", { "QXmppPubSubManager::requestAffiliations" } },
         { "pubsub:requestNodeConfiguration", { "QXmppPubSubManager::requestNodeConfiguration" } },
         { "pubsub:requestSubscribeOptions", { "QXmppPubSubManager::requestSubscribeOptions" } },
-        { "pubsub:requestOwnPepFeatures", { "QXmppPubSubManager::requestFeatures" } },
         { "pubsub:requestNodeAffiliations", { "QXmppPubSubManager::requestNodeAffiliations" } },
         { "mam:retrieveMessages", { "RetrieveRequestState" } },
         { "blocking:fetchBlocklist-x2", { "QXmppBlockingManager::fetchBlocklist" } },
@@ -1137,21 +1138,43 @@ static void reportCoverage(const std::set<std::string> &ran)
     for (auto &r : ran) { auto it = tab.find(r); if (it != tab.end()) for (auto &fn : it->second) covered.insert(fn); }
     std::string missing;
     int hit = 0;
-    for (auto &fn : found) { if (covered.count(fn)) hit++; else missing += fn + " "; }
-    stat("api_functions_found", (long long)found.size());
-    stat("api_functions_exercised", hit);
-    printf("X request-API functions found by the translator: %zu, exercised by this harness: %d; not exercised: %s\n", found.size(), hit, missing.c_str());
+    for (auto &fn : found) { if (covered.count(fn)) hit++; else missing += (missing.empty() ? "" : ",") + fn; }
+    vh::stat("api_functions_found", (long long)found.size());
+    vh::stat("api_functions_exercised", hit);
+    printf("S api_functions_not_exercised %s\n", missing.empty() ? "-" : missing.c_str());
 }
 
 static void runManagerLayer()
 {
     std::set<std::string> ran = { "partA", "partB", "partE", "partF" };
+    bool firstPass = false;   // true inside a probing child
     static const char *answers[] = { "empty-result", "error", "unexpected-payload", "silence-then-disconnect", "reply-from-stranger-then-disconnect" };
     for (auto &mc : mgrCases()) {
         for (const char *ans : answers) {
             std::string a = ans;
             int count = 0, expected = mc.name.find("-x2") != std::string::npos ? 2 : 1;
             int rounds = 0;
+            // probe: the same case in a child process first — a converter that crashes on the answer must not take the harness down
+            if (!firstPass) {
+                fflush(stdout);
+                pid_t pid = fork();
+                int st = 0;
+                if (pid == 0) {
+                    int nul = open("/dev/null", O_WRONLY);
+                    dup2(nul, 1); dup2(nul, 2);
+                    firstPass = true;
+                } else {
+                    waitpid(pid, &st, 0);
+                }
+                if (pid != 0 && WIFSIGNALED(st)) {
+                    bool mixFirst = (mc.name == "mix:requestChannelConfiguration" || mc.name == "mix:requestChannelInformation") && (a == "empty-result" || a == "unexpected-payload");
+                    oracleFail(mixFirst ? "C07:mgr:mix:empty-items-takeFirst-crash" : "C07:mgr:" + mc.name + ":" + a + ":crash",
+                               "manager layer: " + mc.name + " answered with " + a + ": the process dies with signal " + std::to_string(WTERMSIG(st)) + " instead of completing the request");
+                    ran.insert(mc.name);
+                    vh::stat("mgr_cases"); vh::stat("mgr_crashes");
+                    continue;
+                }
+            }
             {
                 DummyE2ee e2ee; e2ee.instant = true;
                 QObject ctx;
@@ -1223,9 +1246,10 @@ static void runManagerLayer()
             }
             // after destruction of the client nothing may complete again
             if (count > expected) oracleFail("C07:mgr:" + mc.name + ":" + a + ":completed-again-at-destruction", mc.name);
+            if (firstPass) _exit(0);
             ran.insert(mc.name);
-            stat("mgr_cases");
-            stat("mgr_requests_answered", rounds);
+            vh::stat("mgr_cases");
+            vh::stat("mgr_requests_answered", rounds);
         }
     }
     reportCoverage(ran);
@@ -1280,13 +1304,13 @@ int main(int argc, char **argv)
     if (a.mode == "fast") { dSmall = 3; dBig = 2; }
     for (int d = 1; d <= dSmall; d++) enumIq(small, d, cur);
     for (int d = 1; d <= dBig; d++) enumIq(big, d, cur);
-    stat("exhaustive_depth_small", dSmall); stat("alphabet_small", (long long)small.size());
-    stat("exhaustive_depth_big", dBig); stat("alphabet_big", (long long)big.size());
+    vh::stat("exhaustive_depth_small", dSmall); vh::stat("alphabet_small", (long long)small.size());
+    vh::stat("exhaustive_depth_big", dBig); vh::stat("alphabet_big", (long long)big.size());
     if (thorough) {
         enumIq(tiny, 6, cur);
         enumIq(medium, 4, cur);
-        stat("exhaustive_depth_tiny", 6); stat("alphabet_tiny", (long long)tiny.size());
-        stat("exhaustive_depth_medium", 4); stat("alphabet_medium", (long long)medium.size());
+        vh::stat("exhaustive_depth_tiny", 6); vh::stat("alphabet_tiny", (long long)tiny.size());
+        vh::stat("exhaustive_depth_medium", 4); vh::stat("alphabet_medium", (long long)medium.size());
     }
 
     // ---- Part A: random, full alphabet, depth up to 40
@@ -1319,7 +1343,7 @@ int main(int argc, char **argv)
         bool sock = v == 1 || v == 2, sm = !(v == 2 || v == 3);
         runIqSeq(own, sock, sm, ops, n < 3);
     }
-    stat("random_sequences", nrand);
+    vh::stat("random_sequences", nrand);
 
     // ---- Part B: archive retrieval machine
     // corpus first: the witness of the defect fixed by repo commit bf0355b (e2ee + empty result page never finished;
@@ -1331,14 +1355,14 @@ int main(int argc, char **argv)
     std::vector<std::string> malpha = { "start", "msg 1 0", "msg 1 1", "msg 0 0", "fin", "err", "dec 0", "dec 1" };
     int dMam = a.mode == "fast" ? 3 : 4;
     for (int d = 1; d <= dMam; d++) enumMam(malpha, d, cur);
-    stat("exhaustive_depth_mam", dMam); stat("alphabet_mam", (long long)malpha.size());
+    vh::stat("exhaustive_depth_mam", dMam); vh::stat("alphabet_mam", (long long)malpha.size());
     // after "start": everything but a second start, two levels deeper
     std::vector<std::string> malpha2(malpha.begin() + 1, malpha.end());
     int dMam2 = a.mode == "fast" ? 3 : thorough ? 6 : 5;
     cur.push_back("start");
     enumMam(malpha2, dMam2 + 1, cur);
     cur.clear();
-    stat("exhaustive_depth_mam_after_start", dMam2); stat("alphabet_mam_after_start", (long long)malpha2.size());
+    vh::stat("exhaustive_depth_mam_after_start", dMam2); vh::stat("alphabet_mam_after_start", (long long)malpha2.size());
     int nmam = thorough ? 6000 : 800;
     for (int n = 0; n < nmam; n++) {
         int len = 2 + rng.below(14);
@@ -1366,7 +1390,7 @@ int main(int argc, char **argv)
         std::vector<std::string> nalpha = { "send", "reply", "loss", "connR", "connF", "connN", "disc" };
         int dNeg = a.mode == "fast" ? 4 : thorough ? 6 : 5;
         for (int d = 1; d <= dNeg; d++) enumNeg(nalpha, d, cur);
-        stat("exhaustive_depth_neg", dNeg); stat("alphabet_neg", (long long)nalpha.size());
+        vh::stat("exhaustive_depth_neg", dNeg); vh::stat("alphabet_neg", (long long)nalpha.size());
         std::vector<std::string> nfull = { "send", "send", "reply", "stray", "loss", "connR", "connR", "connF", "connU", "connN", "disc" };
         int nneg = a.mode == "fast" ? 200 : thorough ? 20000 : 2000;
         for (int n = 0; n < nneg; n++) {
@@ -1375,7 +1399,7 @@ int main(int argc, char **argv)
             for (int j = 0; j < len; j++) ops.push_back(nfull[rng.below(nfull.size())]);
             runNegSeq(ops);
         }
-        stat("random_neg_sequences", nneg);
+        vh::stat("random_neg_sequences", nneg);
     }
 
     // ---- Part E: fetchBlocklist machine
@@ -1384,7 +1408,7 @@ int main(int argc, char **argv)
         int dBlk = a.mode == "fast" ? 4 : thorough ? 7 : 6;
         runBlkSeq({ "fetch", "fetch", "iqerr", "fetch", "iqok", "fetch" });
         for (int d = 1; d <= dBlk; d++) enumBlk(balpha, d, cur);
-        stat("exhaustive_depth_blk", dBlk); stat("alphabet_blk", (long long)balpha.size());
+        vh::stat("exhaustive_depth_blk", dBlk); vh::stat("alphabet_blk", (long long)balpha.size());
     }
     // ---- Part F: sendSensitiveIq pipeline
     {
@@ -1393,7 +1417,7 @@ int main(int argc, char **argv)
         runSensSeq({ "start", "enc 1", "iq 1", "dec ok" });
         runSensSeq({ "start", "enc 1", "dropext", "iq 1" });
         for (int d = 1; d <= dSens; d++) enumSens(salpha, d, cur);
-        stat("exhaustive_depth_sens", dSens); stat("alphabet_sens", (long long)salpha.size());
+        vh::stat("exhaustive_depth_sens", dSens); vh::stat("alphabet_sens", (long long)salpha.size());
     }
 
     // ---- Part C: manager layer
